@@ -28,6 +28,9 @@ def run(ctx, replay=None):
         elif replay.get("kind") == "sim":
             import tuner_sim
             tuner_sim.run_sim(ctx, [replay])
+        elif replay.get("kind") == "local":
+            import tuner_local
+            tuner_local.run_local_race(ctx, [replay])
         elif replay.get("kind") == "bbsim":
             import tuner_bbsim
             tuner_bbsim.run_bbsim(ctx, [replay])
@@ -46,6 +49,10 @@ def run(ctx, replay=None):
     # promotion Hyperband with max_resource_attr, all five simulator delays drawn from {0, 0.05, 0.5, 3.0}
     import tuner_bbsim
     tuner_bbsim.run_bbsim(ctx, None)
+    # stream (d): the real LocalBackend with OS processes; the worker writes its final reports and exits exactly
+    # between the two reads (job status, job log) of one poll
+    import tuner_local
+    tuner_local.run_local_race(ctx, None)
 
 
 def real_scheduler_runs(ctx, replay_cases):
